@@ -130,6 +130,12 @@ def check_C20(tier, seed):
         sched = queue_driver.gen_schedules(6, [1, None], rng, 0, 0)
         simpl = common.run_harness("queue", sched, shards=common.NCPU)
         simpl_dbg = common.run_harness("queue", sched, debug=True, shards=common.NCPU)
+        # the writer under every placement of faults (all error kinds, Interrupted included): no emit, flush or drop may
+        # panic whatever fails when (the `capacity - written` invariant must survive failed flushes too)
+        from . import writer as writer_driver
+        wcases = writer_driver.gen_exhaustive(3, 3, 1, 3, True) + writer_driver.gen_boundary(rng, 20000 if thorough else 2500, True)
+        wimpl = common.run_harness("mlw", wcases)
+        wimpl_dbg = common.run_harness("mlw", wcases[::1 if thorough else 4], debug=True)
         oimpl = common.run_harness("hostile", others, shards=min(8, common.NCPU))
         oimpl_dbg = common.run_harness("hostile", others, debug=True, shards=min(8, common.NCPU))
         omodel = common.run_model("hostile", others)
@@ -186,12 +192,18 @@ def check_C20(tier, seed):
         for prof, x in (("release", o), ("debug", od)):
             if x.startswith("HARNESS-PANIC"):
                 failures.append((len(c), c, x, "a library call panicked under the sub-step schedule (%s profile): %s" % (prof, x[:200])))
+    for prof, cs, os_ in (("release", wcases, wimpl), ("debug", wcases[::1 if thorough else 4], wimpl_dbg)):
+        for c, o in zip(cs, os_):
+            r = o.split("|")[0]
+            if o.startswith("HARNESS-PANIC") or r.endswith(":p") or r.endswith(",p") or ",p," in r:
+                failures.append((len(c), c, o, "the writer panicked under a fault script (%s profile): %s" % (prof, o[:200])))
+    dist["writer_fault_histories"] = len(wcases)
     dist["queued_schedules"] = len(sched)
     if failures:
         failures.sort()
         _, line, o, msg = failures[0]
         rep.violation_input("%s (%d failing cases; smallest shown)" % (msg[:300], len(failures)),
-                            {"bin": "queue" if line.startswith("QH") else "hostile", "case": line[:20000], "implementation": o[:3000], "clause": msg,
+                            {"bin": "queue" if line.startswith("QH") else "mlw" if line.startswith("W ") else "hostile", "case": line[:20000], "implementation": o[:3000], "clause": msg,
                              "how": "build/target/{release,debug}/harness hostile <file with the case line>"})
     if dis and not failures:
         dis.sort()
